@@ -346,6 +346,15 @@ static void mode_big(args const &a)
 			std::string rp = "{\"alg\":\"" + std::string(al.name) + "\",\"len\":" + std::to_string(n) + ",\"append_size\":" + std::to_string(cs.second) + "}";
 			if (got != want) O().viol(std::string("digest:wrong:") + al.name + ":message-of-512MiB-or-more", "length " + std::to_string(n) + " appended in pieces of " + std::to_string(cs.second) + ": " + hex(got) + " instead of " + hex(want), rp);
 		}
+		// the convenience functions util::md5 / util::md5hex hash a whole string in one go
+		if (n < ((size_t)3 << 30)) {
+			std::string msg(buf, n);
+			std::string got = cppcms::util::md5(msg), want(16, '\0');
+			gcry_md_hd_t h; if (gcry_md_open(&h, GCRY_MD_MD5, 0)) { fprintf(stderr, "gcry_md_open failed\n"); exit(3); }
+			gcry_md_write(h, buf, n); want.assign((char const *)gcry_md_read(h, 0), 16); gcry_md_close(h);
+			O().count("big_util_md5"); O().count("checks");
+			if (got != want || cppcms::util::md5hex(msg) != hex(want)) O().viol("digest:wrong:util-md5:message-of-512MiB-or-more", "length " + std::to_string(n) + ": " + hex(got) + " instead of " + hex(want), "{\"alg\":\"util::md5\",\"len\":" + std::to_string(n) + "}");
+		}
 		munmap(buf, n);
 	}
 }
